@@ -117,6 +117,9 @@ def generate(con, index=None, live=None, canary=False):
         rep.status, rep.reason = "undecided", f"{type(e).__name__}: {e}"
     except RecursionError as e:
         rep.status, rep.reason = "undecided", "recursion limit in engine"
+    except Exception as e:  # noqa  -- an engine defect on unforeseen syntax must degrade to "undecided", never to an alarm
+        rep.status, rep.reason = "undecided", f"engine failure {type(e).__name__}: {e} @ {traceback.format_exc().splitlines()[-3].strip()[:120]}"
+        rep.obligations = [ob for ob in rep.obligations]
     rep.gen_time = time.time() - t0
     return rep
 
